@@ -126,12 +126,12 @@ def check_refusal(case, ctx):
         node = root
         for i in case["prefix"]:
             node = node.ckd(i)
-        before = len(node.children)
+        before = len(getattr(node, "children", ()))
         st_, v = call(node.ckd, case["hard"])
         if st_ == "ok":
             raise Violation("C02/refusal/ckd-returned", "%s public node: ckd(%d) returned a node with key %s"
                             % (form, case["hard"], bytes(getattr(v, "key", b"")).hex()))
-        if len(node.children) != before:
+        if len(getattr(node, "children", ())) != before:
             raise Violation("C02/refusal/child-recorded", "refused ckd(%d) still added a child" % case["hard"])
         fresh = dict(pub_parents(p)[1])[form]
         st_, v = call(fresh.derive_path, path)
